@@ -31,6 +31,11 @@ CHECKS = {
    note="Trusted: the reference model of the documented contract (lists), the reference lexer and the 150-line INSERT parser. One genuine defect is a known finding (columns() after a source was accepted).",
    technique=TECH+"BFS over builder-call histories with state deduplication, oracle = reference model + parse-back",
    ref="3.10"),
+ "C11": dict(
+   text="Every template over the 9-symbol alphabet {a 1 2 ? $ space ' \" \\} up to length 6 (quick) / 7 (thorough) x value lists of length 0..3 x 3 backends through the real Expr::cust_with_values: to_string, build (SQL text and returned values) and inject_parameters(build) are compared with an independent reference expander written from the property's words (quote-aware scan, doubled mark = literal, ? positional, $n numbered). Out-of-domain templates (missing value, $1a) must only terminate.",
+   note="Trusted: the 100-line reference expander. inject_parameters over whole statements (values with trailing backslashes etc.) is covered by C02's statement space, not here.",
+   technique=TECH+"trie of all templates over an alphabet up to a length bound x value-list lengths, oracle = reference expander",
+   ref="3.11"),
  "C12": dict(
    text="Exhaustive enumeration of value domains through the real From/ValueType/Nullable/tuple impls: complete bool, i8, u8, i16, u16, char; all 2^32 bit patterns of f32/i32/u32 (thorough; <=3-bit grid in quick); bit-pattern grids for 64-bit types; all strings/byte strings over a 6-symbol alphabet up to length 4; boundary grids for chrono/time/uuid/decimal/json/ip/mac/vector/array types; every (source variant, target type) pair incl. Option<T>; all 3^n tuples for arity 1..12. Run in the `plain` and the `full` (hashable-value) build. Oracle: identity (bit identity for floats), NULL-of-own-variant, Err on mismatch.",
    note="Trusted: the independent variant<->type table in the harness. 64-bit and feature-type domains are grids, not complete.",
